@@ -17,6 +17,7 @@ type rr struct {
 	T   string `json:"t"`
 	Ttl int64  `json:"ttl"`
 	Ip  string `json:"ip"`
+	N   int    `json:"n"` // TXT: bytes of text
 }
 
 type msg struct {
@@ -272,6 +273,21 @@ func buildMsg(m *msg, nameTok string, id ids, seed int64, salt int) ([]byte, err
 				return nil, fmt.Errorf("address token %q is not an AAAA token", r.Ip)
 			}
 			full.Answers = append(full.Answers, dnsmessage.Resource{Header: rh, Body: &dnsmessage.AAAAResource{AAAA: a.As16()}})
+		case "TXT":
+			// records parseMsg skips; they only make the message long
+			left := r.N
+			for left > 0 {
+				var txt []string
+				for range 4 {
+					if left <= 0 {
+						break
+					}
+					k := min(left, 250)
+					txt = append(txt, strings.Repeat("t", k))
+					left -= k
+				}
+				full.Answers = append(full.Answers, dnsmessage.Resource{Header: rh, Body: &dnsmessage.TXTResource{TXT: txt}})
+			}
 		default:
 			return nil, fmt.Errorf("rr type %q", r.T)
 		}
